@@ -332,4 +332,32 @@ def search(res, tier, boost=False):
                                   dict(curve=cname, piece=pc, levels_apart=k, test=describe(te), trial=describe(tr), base=float(v1), exchanged=float(v2),
                                        relative_difference=abs(v1 - v2) / max(abs(v1), 1e-300)))
                     break
+    # panels that touch THROUGH THE CLOSING SEAM against their quarter-turn image that touches at an interior corner, at short elapsed
+    # times (same slab, h_t = 2^-6 ... 2^-13 with h_x = 1/2, 1/4: the entries are tiny but not zero) - the distance between two
+    # panels is the distance on the closed curve, not the difference of the parameters
+    try:
+        gsq = make_curve('UnitSquare')
+        with contextlib.redirect_stdout(io.StringIO()):
+            opq = RealOps(gsq, MeshParametrized(gsq))
+        for lvl, ht_exp in ((1, 6), (1, 9), (1, 13), (2, 8), (2, 12)):
+            n = 2**lvl
+            ht = 2.0**-ht_exp
+            last, first = addr_interval(gsq, (3, lvl, n - 1)), addr_interval(gsq, (0, lvl, 0))
+            img_t, img_r = addr_interval(gsq, (0, lvl, n - 1)), addr_interval(gsq, (1, lvl, 0))
+            for tt, tr_t in (((0.0, ht), (0.0, ht)), ((ht, 2 * ht), (0.0, ht))):
+                pairs = [((last, 3), (first, 0), (img_t, 0), (img_r, 1)), ((first, 0), (last, 3), (img_r, 1), (img_t, 0))]
+                for (x1, p1), (x2, p2), (y1, q1), (y2, q2) in pairs:
+                    te, tr = Stub(tt, x1, gsq.pw_gamma[p1]), Stub(tr_t, x2, gsq.pw_gamma[p2])
+                    te2, tr2 = Stub(tt, y1, gsq.pw_gamma[q1]), Stub(tr_t, y2, gsq.pw_gamma[q2])
+                    v1, v2 = opq.SL[False].bilform(tr, te), opq.SL[False].bilform(tr2, te2)
+                    sc = math.sqrt(abs(opq.SL[False].bilform(te, te) * opq.SL[False].bilform(tr, tr)))
+                    res.count(('seam-vs-corner', lvl, ht_exp, repr(te), repr(tr)), True)
+                    err = abs(v1 - v2) / sc
+                    worst = max(worst, err)
+                    if err > 1e-7:
+                        res.violation('C12:not-invariant:rotate:seam-pair-short-time',
+                                      dict(curve='UnitSquare', test=describe(te), trial=describe(tr), moved_test=describe(te2), moved_trial=describe(tr2),
+                                           base=float(v1), moved=float(v2), scaled_error=err, aspect=float(x1[1] - x1[0])**2 / ht))
+    except AssertionError as exc:
+        res.notes['seam_pair_short_time_skipped'] = repr(exc)
     res.notes['worst_scaled_error'] = worst
